@@ -240,6 +240,7 @@ class SiteWalker:
         self.inline = inline_lambdas
         self.out = []
         self.lambda_ctx = None
+        self._lam_stack = []
 
     # -- expressions
     def expr(self, e, stmt, guards, loops):
@@ -264,9 +265,19 @@ class SiteWalker:
             for x in e[4:]:
                 self.expr(x, stmt, guards, loops)
             return
+        if t == "opcall" and len(e) > 3 and is_expr(e[3]) and e[3][0] == "local" and e[1] == "()":
+            # a call of a named local lambda (`const auto f = [&]{..}; .. f();`): its body runs here
+            d = e[2] if isinstance(e[2], str) and "::lambda@" in e[2] else None      # the callee is resolved by clang
+            if d is not None and not self._in_lambda(d):
+                self._lam_stack.append(d)
+                self.lam(d, stmt, guards, loops, invoked=True)
+                self._lam_stack.pop()
         for x in e[1:]:
             if is_expr(x):
                 self.expr(x, stmt, guards, loops)
+
+    def _in_lambda(self, q):
+        return q in self._lam_stack or self.lambda_ctx == q
 
     def lam(self, q, stmt, guards, loops, invoked):
         if self.P is None:
@@ -460,29 +471,97 @@ def local_defs(fn, program=None, extra_ok=(), allow_overwritten=False):
 
 
 def _init_overwritten(fn, decls):
-    """Single-definition locals whose initialiser reads a variable that is overwritten later in the scope of
-    the declaration (`b = c[0]; c = c.subspan(1); if (b) ..`): replacing b by `c[0]` after that point would
-    read the new c, so such a local is left as its own atom."""
+    """Single-definition locals whose initialiser reads a variable that is overwritten between the declaration
+    and some use of the local (`b = c[0]; c = c.subspan(1); if (b) ..`): replacing b by `c[0]` at that use would
+    read the new c, so such a local is left as its own atom.  (An overwrite after the last use is harmless: a
+    condition on the local seen from after it carries the version tag like any other condition.)
+    Events are taken in evaluation order (condition before branches, init/cond/body/inc for loops); an overwrite
+    and a use that share a loop not containing the declaration count as 'between'."""
+    names = {n: st for n, st in decls.items()}
     by_stmt = {id(st): n for n, st in decls.items()}
+    pos = [0]
+    decl_at, uses, kills = {}, {}, []      # n -> (pos, loops) ; n -> [(pos, loops)] ; [(pos, loops, var)]
+
+    def expr(e, loops):
+        pos[0] += 1
+        p = pos[0]
+        for x in subexprs(e):
+            if x[0] == "local" and len(x) > 1 and x[1] in names:
+                uses.setdefault(x[1], []).append((p, loops))
+        k = set()
+        _expr_kills(e, k)
+        for v in k:
+            kills.append((p, loops, v))
+
+    def walk(s, loops):
+        if not isinstance(s, dict):
+            return
+        k = s.get("k")
+        if k == "seq":
+            for x in s.get("s", []):
+                walk(x, loops)
+        elif k == "if":
+            walk(s.get("init"), loops)
+            v = s.get("var")
+            if isinstance(v, dict) and is_expr(v.get("i")):
+                expr(v["i"], loops)
+            if is_expr(s.get("c")):
+                expr(s["c"], loops)
+            walk(s.get("t"), loops)
+            walk(s.get("e"), loops)
+        elif k in ("for", "while", "do", "foreach"):
+            walk(s.get("init"), loops)
+            lp = loops + (id(s),)
+            if k == "foreach" and is_expr(s.get("range")):
+                expr(s["range"], loops)
+            if k != "do" and is_expr(s.get("c")):
+                expr(s["c"], lp)
+            walk(s.get("b"), lp)
+            if is_expr(s.get("inc")):
+                expr(s["inc"], lp)
+            if k == "do" and is_expr(s.get("c")):
+                expr(s["c"], lp)
+        elif k == "switch":
+            walk(s.get("init"), loops)
+            if is_expr(s.get("c")):
+                expr(s["c"], loops)
+            for x in s.get("s", []):
+                walk(x, loops)
+        elif k == "try":
+            walk(s.get("b"), loops)
+            for h in s.get("h", []):
+                walk(h.get("b"), loops)
+        elif k in ("label", "case", "default"):
+            walk(s.get("b"), loops)
+        else:
+            if k == "decl" and id(s) in by_stmt and is_expr(s.get("i")):
+                expr(s["i"], loops)
+                decl_at[by_stmt[id(s)]] = (pos[0], loops)
+                return
+            for _, e in stmt_exprs(s):
+                expr(e, loops)
+
+    walk(fn.body, ())
     out = set()
-    for blk in stmts(fn.body):
-        if blk.get("k") != "seq":
+    for n, st in decls.items():
+        if n not in decl_at:
             continue
-        items = [x for x in blk.get("s", []) if isinstance(x, dict)]
-        for i, st in enumerate(items):
-            n = by_stmt.get(id(st))
-            if n is None:
+        d, dl = decl_at[n]
+        reads = {x[1] for x in subexprs(st["i"]) if x[0] in ("local", "param") and len(x) > 1}
+        if not reads:
+            continue
+        for kp, kl, v in kills:
+            if v not in reads or kp <= d:
                 continue
-            reads = {x[1] for x in subexprs(st["i"]) if x[0] in ("local", "param") and len(x) > 1}
-            if not reads:
-                continue
-            later = set()
-            for y in items[i + 1:]:
-                for z in stmts(y):
-                    for _, e in stmt_exprs(z):
-                        _expr_kills(e, later)
-            if reads & later:
-                out.add(n)
+            for up, ul in uses.get(n, []):
+                if up <= d:
+                    continue
+                shared = [l for l in kl if l in ul and l not in dl]
+                if kp < up or shared:
+                    out.add(n)
+                    break
+            if n in out:
+                break
     return out
 
 
